@@ -46,3 +46,16 @@ Print Assumptions c16_column_counts_dominated.
 Theorem c16_executable_counts : forall n (P : pat) j, (j < n)%nat -> lcountT n P j = lcount n (elim n P) j.
 Proof. exact lcountT_eq. Qed.
 Print Assumptions c16_executable_counts.
+
+From Coq Require Import Reals.
+From SLU Require Import DiagDom.
+
+(* the hypothesis "the diagonal entries stay nonzero during elimination" holds for EVERY column diagonally dominant matrix
+   (exact arithmetic): the Schur complement of a column diagonally dominant trailing block is column diagonally dominant *)
+Theorem c16_dominance_preserved : forall n k (A : rmat), (k < n)%nat -> cdd n k A -> cdd n (S k) (gstep k A).
+Proof. exact gstep_cdd. Qed.
+Print Assumptions c16_dominance_preserved.
+
+Theorem c16_pivots_nonzero : forall n (A : rmat), cdd n 0 A -> forall k, (k < n)%nat -> (gelim k A k k <> 0)%R.
+Proof. exact diag_dominant_pivots_nonzero. Qed.
+Print Assumptions c16_pivots_nonzero.
